@@ -351,6 +351,12 @@ pub fn fmt_stub(_args: std::fmt::Arguments<'_>) -> String {
     String::new()
 }
 
+/// stub for core::str::slice_error_fail under Kani: the real one formats a long panic message
+/// (symbolic execution of that formatting code does not finish); the panic itself is kept
+pub fn slice_fail_stub(_s: &str, _begin: usize, _end: usize) -> ! {
+    panic!("str slice index out of range or not on a char boundary")
+}
+
 // ------------------------------------------------------------------ machine state
 #[derive(Clone, Copy, PartialEq, Eq, Debug)]
 pub struct Regs {
